@@ -771,5 +771,29 @@ def verify_make_client_key(E, prop="C11"):
     E.case_suffix = ""
 
 
+def verify_aliases(E, prop="C16"):
+    """The alternative method names of the three client classes (set_multi, get_multi, gets_multi, delete_multi, disconnect_all) are
+    class-level aliases of the methods they are documented to be (read from the class bodies of the current source): a call through an
+    alias is a call of the contracted method."""
+    from . import poolmodel as pm
+    want = {"set_multi": "set_many", "get_multi": "get_many", "gets_multi": "gets_many", "delete_multi": "delete_many", "disconnect_all": "close"}
+    st = State()
+    for cls in (pm.CL, pm.PC, H):
+        mod, cname = cls.split(":")
+        m = extract.module(mod)
+        cnode = m.classes[cname]
+        found = {}
+        for nd in cnode.body:
+            if isinstance(nd, ast.Assign) and len(nd.targets) == 1 and isinstance(nd.targets[0], ast.Name) and nd.targets[0].id in want:
+                if not isinstance(nd.value, ast.Name):
+                    raise OutOfReach("%s.%s is bound to an expression, not a plain name: contract needs re-anchoring" % (cname, nd.targets[0].id))
+                found[nd.targets[0].id] = nd.value.id
+            if isinstance(nd, ast.FunctionDef) and nd.name in want:
+                raise OutOfReach("%s.%s is now a function of its own: it needs its own forwarding contract" % (cname, nd.name))
+        for alias, val in sorted(found.items()):
+            E.oblige("%s/%s.%s/is-an-alias-of-%s" % (prop, short(cls + ".x")[:-2], alias, want[alias]), st, z3.BoolVal(val == want[alias]),
+                     func=cls + "." + want[alias], kind="forward", meta={"alias": alias, "bound_to": val})
+
+
 from pyvc.sym import guard_units as _guard_units
 _guard_units(globals())
